@@ -187,6 +187,19 @@ type abandonClient struct {
 	armedCommit   bool
 	commitReached chan struct{}
 	commitRelease chan struct{}
+	// STORM: before each of the next `storm` prewrites (of transactions other than the abandoned ones) reaches the
+	// cluster, `stormFn` runs - it abandons a writer on the same keys, whose rollback record is then newer than the
+	// transaction that is about to prewrite
+	storm   int
+	inStorm bool
+	stormFn func()
+}
+
+// setStorm arms / disarms (n = 0) the storm
+func (c *abandonClient) setStorm(n int, f func()) {
+	c.mu.Lock()
+	c.storm, c.stormFn = n, f
+	c.mu.Unlock()
 }
 
 var theAbandon *abandonClient
@@ -231,6 +244,20 @@ func (c *abandonClient) SendRequest(ctx context.Context, addr string, req *tikvr
 			close(reached)
 			<-ctx.Done()
 			return nil, ctx.Err()
+		}
+		c.mu.Lock()
+		var f func()
+		if c.storm > 0 && !c.inStorm && c.stormFn != nil {
+			c.storm--
+			c.inStorm = true
+			f = c.stormFn
+		}
+		c.mu.Unlock()
+		if f != nil {
+			f() // an abandoned writer gets in between this transaction's begin and its prewrite
+			c.mu.Lock()
+			c.inStorm = false
+			c.mu.Unlock()
 		}
 	}
 	if req.Type == tikvrpc.CmdCommit {
